@@ -214,7 +214,10 @@ func runHTTPScenario(sc HScenario) hResult {
 		res := runner.Run(ctx)
 		cls := "nil"
 		if res != nil {
-			if strings.Contains(res.Error(), "address already in use") && !busyNow.Load() {
+			if strings.Contains(res.Error(), "address already in use") && (!busyNow.Load() || !errors.Is(res, httpserver.ErrServerBoot)) {
+				// an address believed free was taken - or the bind error of an address that IS held by a foreign
+				// listener arrived so late (the ListenAndServe goroutine was not scheduled for 100 ms) that the
+				// readiness probe had already been answered by that listener: the machine, not the scenario; run again
 				envClash.Store(true)
 			}
 			cls = "other"
